@@ -142,13 +142,16 @@ SideFan(F, e) == LET p == Add3(At(F, e), At(F, e + 1)) IN
 \* fan from the interior lattice point Centre(F)
 CentreFan(F) == [ i \in 1..Len(F) |-> << Centre(F), At(F, i), At(F, i + 1) >> ]
 
-SubdivSet(F) ==
+\* on wide faces a chord can reach 90 degrees: such pieces are outside the property's quantifier and are not offered
+ShortSided(s) == \A k \in 1..Len(s.pieces) : SidesShorterThan90(s.pieces[k])
+SubdivAll(F) ==
     LET n == Len(F) IN
     (IF n >= 4 THEN { [ kind |-> "fan", a |-> c, b |-> 0, pieces |-> Fan(F, c) ] : c \in 1..n } ELSE {})
     \cup { [ kind |-> "diag", a |-> ij[1], b |-> ij[2], pieces |-> DiagSplit(F, ij[1], ij[2]) ] :
              ij \in { p \in (1..n) \X (1..n) : p[1] + 1 < p[2] /\ ~(p[1] = 1 /\ p[2] = n) } }
     \cup { [ kind |-> "side", a |-> e, b |-> 0, pieces |-> SideFan(F, e) ] : e \in 1..n }
     \cup { [ kind |-> "centre", a |-> 0, b |-> 0, pieces |-> CentreFan(F) ] }
+SubdivSet(F) == { s \in SubdivAll(F) : ShortSided(s) }
 
 \* directed sides of a polygon
 DirSides(P) == { << P[i], P[NextI(P, i)] >> : i \in 1..Len(P) }
@@ -244,8 +247,21 @@ ClosedEntry(k) == CASE k = "cs2" -> CSMesh(2) [] k = "cs3" -> CSMesh(3) [] k = "
 ClInit == f \in ClosedPick
 ClNext == FALSE /\ f' = f
 ClOK   == ClosedOK(ClosedEntry(f)) /\ SidesBelow90(ClosedEntry(f))
-ClEmit == LET m == ClosedEntry(f) IN
+\* the accuracy class of a mesh is that of its widest face
+Worst(bs) == IF \A k \in 1..Len(bs) : bs[k] = "le10" THEN "le10"
+             ELSE IF \A k \in 1..Len(bs) : bs[k] \in {"le10", "le30"} THEN "le30"
+             ELSE IF \A k \in 1..Len(bs) : bs[k] # "gt65" THEN "le65" ELSE "gt65"
+\* node and face renumberings offered to the harness are bijections
+ClRenumOK == LET m == ClosedEntry(f) IN
+             /\ \A p \in Renumberings(Len(m.nodes)) : IsPerm0(p.perm, Len(m.nodes))
+             /\ \A p \in Renumberings(Len(m.faces)) : IsPerm0(p.perm, Len(m.faces))
+             /\ Renumberings(Len(m.nodes)) # {} /\ Renumberings(Len(m.faces)) # {}
+ClEmit == LET m  == ClosedEntry(f)
+              bs == [ g \in 1..Len(m.faces) |-> Bucket(FaceDirs(m, g)) ]
+          IN
           PrintT(<<"C", f, [ nodes |-> m.nodes, faces |-> m.faces,
                              ex |-> [ g \in 1..Len(m.faces) |-> ExcessDescr(FaceDirs(m, g)) ],
-                             buckets |-> [ g \in 1..Len(m.faces) |-> Bucket(FaceDirs(m, g)) ] ]>>)
+                             buckets |-> bs, worst |-> Worst(bs),
+                             node_perms |-> { p.perm : p \in { q \in Renumberings(Len(m.nodes)) : q.s \in {3, 5, 7} /\ q.o = 1 } },
+                             face_perms |-> { p.perm : p \in { q \in Renumberings(Len(m.faces)) : q.s \in {3, 5, 7} /\ q.o = 2 } } ]>>)
 =============================================================================
